@@ -900,9 +900,20 @@ func runC08(cfg *RunCfg, rep *Reporter, cov *Cov, ev *Evidence) {
 		nham = 12
 	}
 	for i := 0; i < nham; i++ {
-		runHammerChild(cfg, rep, cov, i)
+		runChild(cfg, rep, cov, "hammer", i)
+	}
+	nfol := 3
+	if cfg.Tier == "thorough" {
+		nfol = 20
+	}
+	for i := 0; i < nfol; i++ {
+		runChild(cfg, rep, cov, "follow", i)
 	}
 	finishRace(cfg, rep, cov, ev, "C08")
+	ev.Coverage["follow_runs"] = cov.Get("follow.runs")
+	ev.Coverage["follow_publishes"] = cov.Get("follow.publishes")
+	ev.Coverage["follow_consume_calls"] = cov.Get("follow.consumes")
+	ev.Coverage["follow_caught_up_polls"] = cov.Get("follow.caughtup")
 	ev.Coverage["hammer_runs"] = cov.Get("hammer.runs")
 	ev.Coverage["hammer_head_deletes"] = cov.Get("hammer.deletes")
 	ev.Coverage["hammer_publishes"] = cov.Get("hammer.publishes")
@@ -1101,20 +1112,139 @@ func init() {
 			v := rep.viol[sig]
 			fmt.Printf("V\t%s\t%s\n", v.Sig, strings.ReplaceAll(v.What, "\n", " "))
 		}
-		fmt.Printf("S\t%d\t%d\n", cov.Get("hammer.publishes"), cov.Get("hammer.deletes"))
+		fmt.Printf("S\tpublishes=%d\tdeletes=%d\n", cov.Get("hammer.publishes"), cov.Get("hammer.deletes"))
+		return 0
+	}
+	subcommands["follow"] = func(args []string) int {
+		if len(args) < 2 {
+			return 2
+		}
+		idx, _ := strconv.Atoi(args[0])
+		cfg := &RunCfg{Property: "C08", Scratch: args[1], Replays: args[1]}
+		rep := NewReporter(cfg)
+		cov := NewCov()
+		runFollow(cfg, rep, cov, idx)
+		for _, sig := range rep.order {
+			v := rep.viol[sig]
+			fmt.Printf("V\t%s\t%s\n", v.Sig, strings.ReplaceAll(v.What, "\n", " "))
+		}
+		fmt.Printf("S\tpublishes=%d\tconsumes=%d\tcaughtup=%d\n", cov.Get("follow.publishes"), cov.Get("follow.consumes"), cov.Get("follow.caughtup"))
 		return 0
 	}
 }
 
-func runHammerChild(cfg *RunCfg, rep *Reporter, cov *Cov, idx int) {
-	bin := filepath.Join(filepath.Dir(cfg.Self), "vmon")
-	if _, err := os.Stat(bin); err != nil {
-		rep.Inconclusive("non-race binary for the hammer scenario is missing")
+// runFollow: one publisher, several consumers that follow the tail of the log (no deletes). Every
+// follower checks its own stream: without deletes each Consume must continue exactly at its cursor,
+// and a result without messages must not move the cursor (stream monitor "no unexplained gap",
+// specialised). Bounded by the number of publishes.
+func runFollow(cfg *RunCfg, rep *Reporter, cov *Cov, idx int) {
+	opts := OpenOpts{KeyIndex: idx%2 == 0, Rollover: []int64{400, 20000, 1 << 20}[idx%3]}
+	cr := newConcRun(cfg, rep, cov, fmt.Sprintf("fol%d", idx), opts)
+	if cr == nil {
 		return
 	}
-	out, err := exec.Command(bin, "hammer", strconv.Itoa(idx), cfg.Scratch).Output()
+	defer cr.close()
+	nPub := 40000
+	nFol := 4 + idx%3*6
+	var pubErr error
+	pubDone := make(chan struct{})
+	go func() {
+		defer close(pubDone)
+		for n := 0; n < nPub; n++ {
+			k := 1 + n%3
+			msgs := make([]klevdb.Message, k)
+			for j := range msgs {
+				msgs[j] = klevdb.Message{Key: []byte("a"), Value: []byte("v")}
+			}
+			if _, err := cr.l.Publish(msgs); err != nil {
+				pubErr = err
+				return
+			}
+		}
+	}()
+	type res struct {
+		calls, caught int
+		fail          string
+	}
+	results := make(chan res, nFol)
+	for f := 0; f < nFol; f++ {
+		byKey := opts.KeyIndex && f%2 == 1
+		go func() {
+			var r res
+			cursor := int64(0)
+			for {
+				var nx int64
+				var ms []klevdb.Message
+				var err error
+				if byKey {
+					nx, ms, err = cr.l.ConsumeByKey([]byte("a"), cursor, 16)
+				} else {
+					nx, ms, err = cr.l.Consume(cursor, 16)
+				}
+				r.calls++
+				if err != nil {
+					r.fail = fmt.Sprintf("error:consume:%s\tConsume(%d) failed while publishes were in progress: %s", errClass(err), cursor, errText(err))
+					break
+				}
+				for _, m := range ms {
+					if m.Offset != cursor {
+						r.fail = fmt.Sprintf("consume:unexplained-gap\tConsume at cursor %d returned offset %d: offsets in between were skipped although nothing was deleted", cursor, m.Offset)
+						break
+					}
+					cursor++
+				}
+				if r.fail != "" {
+					break
+				}
+				if len(ms) == 0 {
+					r.caught++
+					if nx != cursor {
+						r.fail = fmt.Sprintf("consume:unexplained-gap\tConsume(%d) returned no messages and next offset %d: the messages in between were skipped although nothing was deleted", cursor, nx)
+						break
+					}
+					select {
+					case <-pubDone:
+						// publisher finished: one more pass decides whether we are really at the end
+						if fin, _ := kNext(cr.l); fin == cursor {
+							results <- r
+							return
+						}
+					default:
+					}
+				} else if nx != cursor {
+					r.fail = fmt.Sprintf("consume:next-after-run\tConsume returned next offset %d after delivering up to %d", nx, cursor-1)
+					break
+				}
+			}
+			results <- r
+		}()
+	}
+	for f := 0; f < nFol; f++ {
+		r := <-results
+		cov.Add("follow.consumes", int64(r.calls))
+		cov.Add("follow.caughtup", int64(r.caught))
+		if r.fail != "" {
+			parts := strings.SplitN(r.fail, "\t", 2)
+			rep.Report(Violation{Property: "C08", Sig: "concmon|" + parts[0], What: parts[1], Replay: map[string]any{"phase": "follow", "index": idx}})
+		}
+	}
+	<-pubDone
+	if pubErr != nil {
+		rep.Report(Violation{Property: "C08", Sig: "concmon|error:Publish:follow", What: "Publish failed: " + pubErr.Error()})
+	}
+	fin, _ := kNext(cr.l)
+	cov.Add("follow.publishes", fin)
+}
+
+func runChild(cfg *RunCfg, rep *Reporter, cov *Cov, mode string, idx int) {
+	bin := filepath.Join(filepath.Dir(cfg.Self), "vmon")
+	if _, err := os.Stat(bin); err != nil {
+		rep.Inconclusive("non-race binary for the " + mode + " scenario is missing")
+		return
+	}
+	out, err := exec.Command(bin, mode, strconv.Itoa(idx), cfg.Scratch).Output()
 	if err != nil {
-		rep.Inconclusive("hammer child failed: " + clipStr(err.Error(), 100))
+		rep.Inconclusive(mode + " child failed: " + clipStr(err.Error(), 100))
 		return
 	}
 	cov.Add("evaluations", 1)
@@ -1122,14 +1252,16 @@ func runHammerChild(cfg *RunCfg, rep *Reporter, cov *Cov, idx int) {
 		f := strings.Split(ln, "\t")
 		switch {
 		case len(f) == 3 && f[0] == "V":
-			rep.Report(Violation{Property: "C08", Sig: f[1], What: "[hammer: publisher of records larger than a page vs head-segment deleter] " + f[2], Replay: map[string]any{"phase": "hammer", "index": idx, "how": "vmon hammer <index> <scratch dir>"}})
-		case len(f) == 3 && f[0] == "S":
-			p, _ := strconv.Atoi(f[1])
-			d, _ := strconv.Atoi(f[2])
-			cov.Add("hammer.runs", 1)
-			cov.Add("hammer.publishes", int64(p))
-			cov.Add("hammer.deletes", int64(d))
-			cov.Distinct("c08", "overlap:hammer:delete-head+publish-large")
+			rep.Report(Violation{Property: "C08", Sig: f[1], What: "[" + mode + " stress] " + f[2], Replay: map[string]any{"phase": mode, "index": idx, "how": "vmon " + mode + " <index> <scratch dir>"}})
+		case len(f) >= 3 && f[0] == "S":
+			cov.Add(mode+".runs", 1)
+			for _, kv := range f[1:] {
+				if i := strings.IndexByte(kv, '='); i > 0 {
+					n, _ := strconv.Atoi(kv[i+1:])
+					cov.Add(mode+"."+kv[:i], int64(n))
+				}
+			}
+			cov.Distinct("c08", "overlap:"+mode)
 		}
 	}
 }
